@@ -43,8 +43,9 @@ def rbytes(r, n):
 class Pools(object):
     """small pools force block-table hits, big domains force growth"""
 
-    def __init__(self, r, big=False):
+    def __init__(self, r, big=False, huge=0.0):
         self.r = r
+        self.huge = huge          # probability of a string longer than the decoder window / several encoder buffers
         self.ips = [rbytes(r, 4) for _ in range(4)] + [rbytes(r, 16) for _ in range(3)]
         self.names = [self.dname(r) for _ in range(6)]
         self.rdatas = [rbytes(r, r.choice([0, 1, 4, 16, 23, 24, 40])) for _ in range(5)]
@@ -69,12 +70,16 @@ class Pools(object):
 
     def name(self):
         r = self.r
+        if self.huge and r.random() < self.huge:
+            return rbytes(r, r.choice([2047, 2048, 2049, 4100, 65535, 65536, 70000, 140000]))
         if self.big or r.random() < 0.25:
             return self.dname(r) if r.random() < 0.8 else rbytes(r, r.choice([0, 1, 2, 23, 24, 63, 255, 256, 300]))
         return r.choice(self.names)
 
     def rdata(self):
         r = self.r
+        if self.huge and r.random() < self.huge:
+            return rbytes(r, r.choice([2040, 2048, 6200, 65530, 65535, 65537, 100000]))
         if self.big or r.random() < 0.3:
             return rbytes(r, r.choice([0, 1, 2, 4, 16, 23, 24, 100, 255, 256, 600]))
         return r.choice(self.rdatas)
@@ -301,11 +306,11 @@ def gen_preamble(r, nbps=None, rich=False, **kw):
 # ------------------------------------------------------------------------------------------------ histories
 
 def gen_history(r, cid, nops=None, comp=None, kind=None, rotations=True, direct=True, addbp=True, big=False,
-                preamble=None, stats_p=0.35, empties=True, max_ops=120, weights=None):
+                preamble=None, stats_p=0.35, empties=True, max_ops=120, weights=None, huge=0.0):
     """An exporter API history respecting the two documented caller duties.  The reference model is stepped
     alongside so that timestamps are normalised for the tick rate of the block they will be stored in."""
     from .model import ExporterModel
-    P = Pools(r, big=big)
+    P = Pools(r, big=big, huge=huge)
     pre = preamble or gen_preamble(r)
     case = {'id': cid, 'preamble': pre,
             'open': {'id': 'o0', 'kind': kind or r.choice(['name', 'fd']), 'comp': comp or r.choice(['none', 'none', 'gzip', 'xz'])},
